@@ -457,6 +457,9 @@ def register_numpy():
                 except UnicodeDecodeError:
                     # bytes fast-path
                     data = hash_buffer_hex(b"-".join(x.flat))
+                # The joined text alone does not say where one element ends
+                # (['a-b', 'c'] vs ['a', 'b-c']): add the element lengths
+                data = (data, tuple(map(len, x.flat)))
             except (TypeError, UnicodeDecodeError):
                 return normalize_object(x)
         else:
